@@ -89,6 +89,10 @@ async fn watchdog(sh: Rc<Shared>, fx: Rc<Fx>, sc: Scenario, mode: Mode, ips: Vec
         tokio::time::sleep(Duration::from_millis(1)).await;
         let t = fx.tick.get() + 1;
         fx.tick.set(t);
+        sh.round.set(t as u32);
+        if t <= sc.sides[0].read_delay.max(sc.sides[1].read_delay) as u64 + 2 {
+            last_active = t;
+        }
         let mut o = sh.obs.borrow_mut();
         if !ips.is_empty() {
             check_queues(&sc.cfg, &ips, &mut o, "after a fixture tick");
@@ -144,6 +148,9 @@ fn plan_rule(sh: Rc<Shared>, fx: Rc<Fx>, plan: Plan) -> impl FnMut(&Packet) -> V
         check_sizes(&fx.wire.borrow(), pkt, &info, &mut o);
         let fate = fx.fates.borrow_mut().decide(&plan, &info, nth);
         let t = fx.tick.get();
+        if info.kind == Kind::Fin && !matches!(fate, Fate::Drop | Fate::Hole) {
+            sh.fin_delivered[1 - info.dir as usize].set(true);
+        }
         let (verdict, name) = match fate {
             Fate::Now => (Verdict::Pass, "pass".to_string()),
             Fate::Hold(k) => {
@@ -188,6 +195,10 @@ pub fn run_fixture(sc: &Scenario, keep: bool) -> Outcome {
         obs: RefCell::new(Obs::new(keep, mode)),
         sides: sc.sides.clone(),
         first_byte: [Gate::default(), Gate::default()],
+        writer_done: [Gate::default(), Gate::default()],
+        fin_delivered: Default::default(),
+        round: Default::default(),
+        hole_round: Default::default(),
         spawner: Spawner::default(),
         hosts: None,
         stat_ip: if cross { Some([IpAddr::V4(C4), IpAddr::V4(S4)]) } else { None },
